@@ -509,3 +509,32 @@ Proof.
   exists 1, (mk_sq [7] []), 9. cbn. split; [lia|]. split; [lia|]. split; [reflexivity|].
   intros [H|H]; [discriminate H|exact H].
 Qed.
+
+(* C01 (zero-copy) / C02: the buffer travels inside the operation storage and
+   only take_result hands it back; that is impossible while the kernel owns
+   the operation (before the final / notification completion) *)
+Theorem pop_while_in_kernel_rejected u es s k x :
+  steps (init u) es = Some s ->
+  nth_error (keys s) k = Some x -> in_kernel x = true ->
+  step s (EUserPop k true) = None /\ step s (EUserPushReady k) = None.
+Proof.
+  intros Hs Hk Hin.
+  pose proof (reachable_inv _ _ _ Hs) as Hi.
+  assert (Hi' : Inv (settle_all s)) by (apply settle_all_inv; exact Hi).
+  unfold step. cbn [user_ev strict_ev andb].
+  destruct (any_needs_free (settle_all s)); [split; reflexivity|].
+  unfold with_key, settle_all. cbn [keys set_keys].
+  rewrite nth_error_map, Hk. cbn [option_map].
+  pose proof (nth_error_Forall _ _ _ _ Hi Hk) as Hx.
+  pose proof (settle_kinv x Hx) as (H1 & H2 & H3 & H4).
+  assert (Hin' : in_kernel (settle x) = true).
+  { destruct x as [rc0 us lk ik fr qu ch en re ca fd ho]. unfold settle, live, release_n.
+    cbn in *. destruct ho, fd; cbn; exact Hin. }
+  destruct (H3 Hin') as [Hl Hf]. specialize (H2 Hf). rewrite Hl in H2. cbn [b2n] in H2.
+  unfold live. rewrite Hf. cbn [negb orb andb].
+  split.
+  - destruct (Nat.eqb_spec (user (settle x)) 0); [reflexivity|].
+    destruct (Nat.eqb_spec (rc (settle x)) 1); [lia|]. reflexivity.
+  - destruct (Nat.ltb_spec 0 (user (settle x))); [|reflexivity].
+    destruct (Nat.eqb_spec (rc (settle x)) 1); [lia|]. reflexivity.
+Qed.
